@@ -9,7 +9,7 @@
    Not modelled: index dtypes (can_store / astype: unbounded Z here, see C15), the conversion of
    DOK/GCXS members to COO (C05), dtype promotion of data. *)
 From Coq Require Import ZArith List Bool Sorting.Sorted.
-From Verif Require Import Py PyExt Shape COO GCXS NpJoin G_join S_join.
+From Verif Require Import Py PyExt Shape COO GCXS Convert NpJoin G_join S_join.
 Import ListNotations.
 Open Scope Z_scope.
 
@@ -198,32 +198,9 @@ Section Join.
     r <- needed_expr (VInt (zsum (map snd members))) (VInt (Z.of_nat (length (splice members)))) ;;
     match r with VInt z => Ok z | _ => Raise TypeError end.
 
-  (* GCXS.from_coo / change_compressed_axes, by their meaning: the entries ordered by
-     (row, column) of the matrix view for the compressed axes ca; indices = columns,
-     indptr = running row counts.  (Conversion algorithms themselves: C05.) *)
-  Definition permuted (ord : list Z) (ix : idx) : idx := map (fun a => znth ix a 0) ord.
-
-  Definition count_lt (rows : list Z) (r : Z) : Z :=
-    Z.of_nat (length (filter (fun x => x <? r) rows)).
-
-  Definition to_gcxs (ca : list Z) (c : coo V) : gcxs V :=
-    let sh := c_shape c in
-    match sh with
-    | [] | [_] => mkGCXS sh [] (c_data c) (map (fun ix => nth 0 ix 0) (c_coords c)) [] (c_fill c)
-    | _ =>
-      let ord := axis_order (Z.of_nat (length sh)) ca in
-      let rsh := reordered_shape sh ca in
-      let cs := col_size sh ca in
-      let rs := row_size sh ca in
-      let key := fun ix => ravel rsh (permuted ord ix) in
-      let es := sort_by key (entries c) in
-      let lin := map (fun e => key (fst e)) es in
-      mkGCXS sh ca (map snd es) (map (fun l => l mod cs) lin)
-             (map (count_lt (map (fun l => l / cs) lin)) (zrange (rs + 1))) (c_fill c)
-    end.
-
-  Definition change_compressed_axes (ca : list Z) (g : gcxs V) : gcxs V :=
-    if idx_eqb ca (g_caxes g) then g else to_gcxs ca (gcxs_as_coo g).
+  (* GCXS.change_compressed_axes((axis,)) is Model/Convert.v's transcription of `_transpose`
+     (gcxs_change_axes, property C05: change_axes_den / change_axes_wf) *)
+  Definition change_compressed_axes (ca : list Z) (g : gcxs V) : gcxs V := gcxs_change_axes g ca.
 
   Definition gnnz (g : gcxs V) : Z := Z.of_nat (length (g_data g)).
 
@@ -247,10 +224,13 @@ Section Join.
       Ok (change_compressed_axes ca (gcxs_join_core sh ax (fill_of fsrc (g_fill a)) ms))
     end.
 
-  (* arrays[i].reshape(shape with a 1 inserted at axis) *)
-  Definition gcxs_expand (k : nat) (g : gcxs V) : coo V :=
-    let c := gcxs_as_coo g in
+  (* arrays[i].reshape(shape with a 1 inserted at axis).change_compressed_axes((axis,)), by its meaning:
+     the member's entries with a 0 inserted at the new axis, compressed along it (GCXS.reshape's kernel
+     itself — `_transpose` onto a different shape — is not transcribed; its result is compared case by
+     case by the correspondence) *)
+  Definition coo_expand (k : nat) (c : coo V) : coo V :=
     mkCOO (ins k 1 (c_shape c)) (map (ins k 0) (c_coords c)) (c_data c) (c_fill c).
+  Definition gcxs_expand (k : nat) (g : gcxs V) : coo V := coo_expand k (gcxs_tocoo veqb vadd g).
 
   Definition gcxs_stack (fsrc : fill_src) (ndim_expr : pyv -> res pyv) (checks_fill : bool)
              (axis : Z) (caxes : option (list Z)) (arrs : list (gcxs V)) : res (gcxs V) :=
@@ -263,7 +243,7 @@ Section Join.
       if negb (forallb (fun x => idx_eqb (g_shape a) (g_shape x)) arrs) then Raise OtherError else
       let sh := ins k (Z.of_nat (length arrs)) (g_shape a) in
       let ca := match caxes with Some c => c | None => [ax] end in
-      let ms := map (fun g => to_gcxs [ax] (gcxs_expand k g)) arrs in
+      let ms := map (fun g => gcxs_from_coo (gcxs_expand k g) [ax]) arrs in
       Ok (change_compressed_axes ca (gcxs_join_core sh ax (fill_of fsrc (g_fill a)) ms))
     end.
 End Join.
@@ -289,6 +269,6 @@ Section Instances.
     gcxs_concatenate V veqb vzero site_gcxs_concatenate_fill site_gcxs_concatenate_axis_ndim
                      site_gcxs_concatenate_checks_consistent_fill.
   Definition gcxs_stack_src : Z -> option (list Z) -> list (gcxs V) -> res (gcxs V) :=
-    gcxs_stack V veqb vzero site_gcxs_stack_fill site_gcxs_stack_axis_ndim
+    gcxs_stack V veqb vzero vadd site_gcxs_stack_fill site_gcxs_stack_axis_ndim
                site_gcxs_stack_checks_consistent_fill.
 End Instances.
